@@ -884,6 +884,10 @@ class MultiFit(FitBase):
             fit.release_parameter(name)
 
     def do_fit(self, asymmetric_parameter_errors=False):
+        # parameter values set on a member fit reach the shared parameter nodes but not the minimizer of the multi-fit
+        _node_values = self.parameter_values
+        if np.any(self._fitter.minimizer.parameter_values != _node_values):
+            self._fitter.set_all_fit_parameter_values(_node_values)
         _fit_result = super(MultiFit, self).do_fit(asymmetric_parameter_errors=asymmetric_parameter_errors)
         self._update_singular_fits()
         return _fit_result
